@@ -60,6 +60,7 @@ class Sched:
         self.deadlock = False
         self.log = []          # (who, steps, why, pos)
         self.lock_handovers = 0
+        self.net_waits = 0
         self.ops_applied = 0
         self.remaining = None  # events left in the current 'T' segment
         self.calls_remaining = None  # calls left in the current 'C' segment
@@ -100,6 +101,15 @@ class Sched:
                 self.remaining = s[2]
                 self.calls_remaining = None
             return w
+
+    def net_wait(self):
+        """Called from the simulated transport by the worker that is
+        waiting for a peer's reply: the wait is a scheduling point, other
+        workers (and the operator) run until the plan comes back to it."""
+        i = self.idx.get(_thread.get_ident())
+        if i is not None and not self.dead:
+            self.net_waits += 1
+            self._handover(i, 'net')
 
     def yield_point(self, i):
         """Called by worker i (outside library frames) after each of its
